@@ -14,26 +14,30 @@ def thread(th):
 
 
 def geometry(sc, cfg):
-    """(P, R, RQ, Kind) of a single-transfer scenario inside the model's scope,
-    or None."""
+    """(P, R, RQ, Kind, NeedHead) of a single-transfer scenario inside the
+    model's scope, or None."""
     ts = sc['transfers']
     if len(ts) != 1:
         return None
     t = ts[0]
     kind = t.get('kind')
     if kind == 'delete':
-        return (0, cfg['R'], cfg['RQ'], 'delete')
-    if kind != 'upload' or t.get('src', 'path') != 'path':
+        return (0, cfg['R'], cfg['RQ'], 'delete', False)
+    if kind == 'copy':
+        head = not any(s.get('provide_size') is not None for s in t.get('subs') or [])
+    elif kind != 'upload' or t.get('src', 'path') != 'path':
         return None
+    else:
+        head = False
     size, thr, chunk = t['size'], cfg['threshold'], cfg['chunk']
     if size < thr:
-        return (0, cfg['R'], cfg['RQ'], 'upload')
-    return (-(-size // chunk), cfg['R'], cfg['RQ'], 'upload')
+        return (0, cfg['R'], cfg['RQ'], kind, head)
+    return (-(-size // chunk), cfg['R'], cfg['RQ'], kind, head)
 
 
 def dl_geometry(sc, cfg):
-    """(N, R, RQ, IOQ, A, NeedHead, HasOld, Dest, W) of a single ranged download
-    with one data read per part, or None."""
+    """(N, R, RQ, IOQ, A, NeedHead, HasOld, Dest, W, Single) of one download
+    (ranged, or below the threshold: Single) with one data read per part, or None."""
     ts = sc['transfers']
     if len(ts) != 1:
         return None
@@ -42,11 +46,12 @@ def dl_geometry(sc, cfg):
             'path', 'seekable', 'nonseekable'):
         return None
     size, thr, chunk = t['size'], cfg['threshold'], cfg['chunk']
-    if size < thr or cfg['io_chunk'] < chunk:
+    single = size < thr
+    if size == 0 or cfg['io_chunk'] < (size if single else chunk):
         return None
     provided = any(s.get('provide_size') is not None for s in t.get('subs') or [])
-    return (-(-size // chunk), cfg['R'], cfg['RQ'], cfg['IOQ'], cfg['attempts'],
-            not provided, bool(t.get('old')), t.get('dst', 'path'), cfg['down_chunks'])
+    return (1 if single else -(-size // chunk), cfg['R'], cfg['RQ'], cfg['IOQ'], cfg['attempts'],
+            not provided, bool(t.get('old')), t.get('dst', 'path'), cfg['down_chunks'], single)
 
 
 RETRYABLE = ('timeout', 'protocol', 'incomplete', 'socket', 'connreset')
@@ -118,8 +123,9 @@ def project(events, chunk=2):
             out.append(r)
         elif k == 'S3Begin':
             part = e.get('PartNumber') or 0
-            if e['op'] == 'GetObject' and e.get('Range'):
-                part = int(e['Range'].split('=')[1].split('-')[0]) // chunk + 1
+            if e['op'] == 'GetObject':
+                part = int(e['Range'].split('=')[1].split('-')[0]) // chunk + 1 \
+                    if e.get('Range') else 1
             out.append({'k': k, 'th': th, 'op': e['op'], 'part': part})
         elif k == 'S3End':
             oc = e.get('outcome', 'ok')
